@@ -6,7 +6,7 @@
    C13 statement, executable = the judge of the end-to-end correspondence run). *)
 From CSL Require Import Base.Prelude Base.U64 Cbor.Head Codec.Schema Ledger.Schemas
   Batch.Calc Batch.CalcProofs Batch.Denote Batch.EncProofs Batch.IntermediateProofs
-  Batch.Proposal Batch.ProposalProofs Batch.BatchProofs Batch.PureAda Batch.PureAdaProofs.
+  Batch.Proposal Batch.ProposalProofs Batch.BatchProofs Batch.PureAda Batch.PureAdaProofs Batch.AssetPath Batch.AssetPathProofs Batch.NoOofProofs Batch.TerminationProofs Batch.IvLinkProofs.
 From CSL Require Cbor.Item Batch.BatchSpec Batch.JudgeProofs.
 From Coq Require Import Permutation.
 Local Open Scope N_scope.
@@ -155,6 +155,58 @@ Example C13_pure_ada_example :
                  57 44 155381 4310 5000 16384 13900000 in
   no_assets c = true /\ pure_send_all c = Ok [mkAtx [1; 0; 2] [(13725259, [])] 174741 [0; 1]].
 Proof. split; vm_compute; reflexivity. Qed.
+
+(* FULL C13 for the complete batcher, asset path included (Batch/AssetPath.v: prototype_append, make_candidate, the
+   intersections, add_assets_to_proposal_output, the build loop), for EVERY oracle = every iteration order the hash sets
+   can take: no "any accepted operation sequence" abstraction is left; the correspondence run feeds the orders the
+   implementation took and compares every transaction exactly *)
+Theorem C13_full : forall c o txs,
+  utxos_ok c -> ctx_wf c -> full_send_all c o = Ok txs ->
+  Permutation (concat (map x_inputs txs)) (all_indices c) /\ Forall (tx_valid c) txs.
+Proof. exact full_send_all_sound. Qed.
+Print Assumptions C13_full.
+
+(* ... because it refines the abstract batch: every successful run is a plan of accepted operation sequences *)
+Theorem C13_refinement : forall c fuel st o txs,
+  utxos_ok c -> pools_ok c st -> build_all fuel c st o = Ok txs -> exists plan, batch c (flat st) plan = Ok txs.
+Proof. intros c fuel st o txs Hu. exact (build_all_batch c Hu fuel st o txs). Qed.
+Print Assumptions C13_refinement.
+
+Example C13_full_example :
+  utxos_ok ex_ctx /\ full_send_all ex_ctx [] = Ok [mkAtx [0; 1] [(12831463, [[(3, 7, 7)]])] 168537 [0]].
+Proof.
+  split; [|vm_compute; reflexivity]. intros u. unfold uassets, utxo_of, nthN, ex_ctx. cbn [cx_utxos].
+  destruct (N.to_nat u) as [|[|[|n]]]; cbn; repeat constructor; intros [].
+Qed.
+
+(* termination: with the fuel the models pass (number of UTxOs + 1 for the build loops, number of free UTxOs + 1 for the
+   fill loops, number of assets + 2 for the distribution of a UTxO's assets, pool size + 1 for the top-up loop) no loop ever
+   runs out of fuel, for every oracle: every round of every loop consumes a UTxO / places an asset, or reports an error *)
+Theorem C13_terminates :
+  (forall c o, utxos_ok c -> full_send_all c o <> OutOfFuel) /\ (forall c, pure_send_all c <> OutOfFuel).
+Proof. split; [exact full_send_all_terminates | exact pure_send_all_terminates]. Qed.
+Print Assumptions C13_terminates.
+
+(* the value-size test of the models (closed form bound_of) is the size IntermediateOutputValue maintains incrementally,
+   for both ways the code builds it (assets then coin: build_intermediate_value; coin then assets: build_empty + additions) *)
+Theorem C13_intermediate_link : forall c l, NoDup l ->
+  iv_total (fold_left (stepc c) (map (add_op c) l ++ [ICoin (cx_ada_total c)]) iv_new) = bound_of c l /\
+  iv_total (fold_left (stepc c) (ICoin (cx_ada_total c) :: map (add_op c) l) iv_new) = bound_of c l.
+Proof. exact iv_bound_link. Qed.
+Print Assumptions C13_intermediate_link.
+
+(* the top-up defect (before /repo 180f5b3): one round leaves a shortage; the repaired loop never does *)
+Theorem C13_topup_once_refuted :
+  exists c p pool p2 used size n,
+    run c tp_new [OpNewOutput; OpAddAsset 0; OpAddUtxo 0; OpSetMinAda] = Ok p /\
+    topup_once c pool false p [] 0 = Ok (p2, used, size) /\ get_need_ada p2 = Ok n /\ 0 < n.
+Proof. exact topup_once_refuted. Qed.
+Print Assumptions C13_topup_once_refuted.
+
+Theorem C13_topup_loop_covers : forall c pool orig fuel p used size p2 u2 s2,
+  topup_loop fuel c pool orig p used size = Ok (p2, u2, s2) -> get_need_ada p2 = Ok 0.
+Proof. intros. eapply topup_need. eassumption. Qed.
+Print Assumptions C13_topup_loop_covers.
 
 (* the premises are satisfiable: a two-UTxO layout with an asset, mainnet parameters *)
 Example C13_example :
